@@ -718,13 +718,18 @@ IUnwind ==
              /\ UNCHANGED res
   /\ UNCHANGED <<prog, heap, out, tr>>
 
+\* (written as one top-level disjunction so that TLC's coverage reports every instruction separately: bin/vacuity)
 Step ==
-  /\ Running
-  /\ IF exc.on THEN IUnwind
-     ELSE \/ ILine \/ IPush \/ ILoad \/ IBin \/ IJsc \/ IChk \/ IJmp \/ IJmpF \/ IJmpX \/ IBegin \/ IEnd
-          \/ IPop \/ ILast \/ IDecl \/ IStore \/ IMkList \/ IMkDict \/ IIndex \/ IStoreIdx \/ IMember \/ IThis
-          \/ IStoreMem \/ IStoreThis \/ ICall \/ IMCall \/ INew \/ IRet \/ IEndBody \/ IEndHandler
-          \/ IIterInit \/ IIterNext \/ IIterPop \/ IThrow
+  \/ (Running /\ exc.on /\ IUnwind)
+  \/ (Running /\ ~exc.on /\ ILine) \/ (Running /\ ~exc.on /\ IPush) \/ (Running /\ ~exc.on /\ ILoad) \/ (Running /\ ~exc.on /\ IBin)
+  \/ (Running /\ ~exc.on /\ IJsc) \/ (Running /\ ~exc.on /\ IChk) \/ (Running /\ ~exc.on /\ IJmp) \/ (Running /\ ~exc.on /\ IJmpF)
+  \/ (Running /\ ~exc.on /\ IJmpX) \/ (Running /\ ~exc.on /\ IBegin) \/ (Running /\ ~exc.on /\ IEnd) \/ (Running /\ ~exc.on /\ IPop)
+  \/ (Running /\ ~exc.on /\ ILast) \/ (Running /\ ~exc.on /\ IDecl) \/ (Running /\ ~exc.on /\ IStore) \/ (Running /\ ~exc.on /\ IMkList)
+  \/ (Running /\ ~exc.on /\ IMkDict) \/ (Running /\ ~exc.on /\ IIndex) \/ (Running /\ ~exc.on /\ IStoreIdx) \/ (Running /\ ~exc.on /\ IMember)
+  \/ (Running /\ ~exc.on /\ IThis) \/ (Running /\ ~exc.on /\ IStoreMem) \/ (Running /\ ~exc.on /\ IStoreThis) \/ (Running /\ ~exc.on /\ ICall)
+  \/ (Running /\ ~exc.on /\ IMCall) \/ (Running /\ ~exc.on /\ INew) \/ (Running /\ ~exc.on /\ IRet) \/ (Running /\ ~exc.on /\ IEndBody)
+  \/ (Running /\ ~exc.on /\ IEndHandler) \/ (Running /\ ~exc.on /\ IIterInit) \/ (Running /\ ~exc.on /\ IIterNext)
+  \/ (Running /\ ~exc.on /\ IIterPop) \/ (Running /\ ~exc.on /\ IThrow)
 Next == Step
 \* a value outside the integer model reached an observable position: the vector is dropped
 Skipped == \/ (res.k = "value" /\ res.v.t = "skip")
